@@ -208,6 +208,7 @@ void backend () {
   struct timeval timeout;
   int nb;
   int i;
+  volatile int startup_step = 0;
   error_context_t econ;
 
   opt_info (1, "Entering backend loop.");
@@ -253,16 +254,27 @@ void backend () {
     {
       debug_message ("timer not used (timer flags = %d)\n", MAIN_OPTION(timer_flags));
     }
-  /* do initial timer tick (initialize current_time and allow LPC code to access time).
-   * This is always done even if no timer is started, so that current_time is valid.
-   */
-  call_heart_beat ();
-
   if (setjmp (econ.context))
     restore_context (&econ);
 
-  if (MAIN_OPTION(console_mode))
-    init_console_user(0);
+  /* Start-up steps, each done exactly once. They run LPC code, so they come
+   * after the setjmp(): an uncaught error in one of them returns to the
+   * setjmp() above and execution goes on with the next step.
+   * 1. initial timer tick (initialize current_time and allow LPC code to access
+   *    time); always done even if no timer is started, so that current_time is valid.
+   * 2. connect the console user.
+   */
+  if (startup_step < 1)
+    {
+      startup_step = 1;
+      call_heart_beat ();
+    }
+  if (startup_step < 2)
+    {
+      startup_step = 2;
+      if (MAIN_OPTION(console_mode))
+        init_console_user(0);
+    }
 
   while (1)
     {
